@@ -1,10 +1,10 @@
 INIT Init
 NEXT Next
 CONSTANTS
-  M = 5
-  MaxW = 2
-  Ps = {1, 2, 3}
-  Cs = {6}
-  PoolN = 16
+  M = 4
+  MaxW = 3
+  Ps = {2}
+  Cs = {5}
+  PoolN = 3
 INVARIANTS Safe RefAgree CycleProps RunIsStepping RotInv EvProps
 CHECK_DEADLOCK FALSE
